@@ -14,7 +14,7 @@ ENGINE = 'E1 full product, differential against the inline write of the pre-slic
 RULE = ("full product of frame configuration (1..3 channels, scalar and 2-D, mixed dtypes, with and without index "
         "type) x rows x source kind {inline, dict, structured array, HDF5 with nested groups and bare/leading-slash "
         "names} x dataset-name mapping {identity, renamed} x source field order {as frame, reversed} x extra unused "
-        "datasets x all windows 0<=from<to<=R plus open-ended x input chunk {None,1,2,R}; oracle: byte-identical to the "
+        "datasets x byte order of the source arrays x all windows 0<=from<to<=R plus open-ended x input chunk {None,1,2,R}; oracle: byte-identical to the "
         "inline write of the pre-sliced arrays and rows decode to exactly [from,to); non-trivial = both files written "
         "and compared")
 ASSUMPTIONS = ["strict reader mc/rp66.py", "reference model mc/model.py", "reference configuration: inline data, "
@@ -41,11 +41,11 @@ def cases(shard, tier):
     R_ = shard['rows']
     wins = [(f, t) for f in range(R_) for t in range(f + 1, R_ + 1)] + [(f, None) for f in range(R_)]
     chunks = sorted({None, 1, 2, R_}, key=lambda x: (x is not None, x))
-    for (f, t), chunk, mapping, perm, extra in itertools.product(wins, chunks, ['identity', 'renamed'],
-                                                                 ['same', 'reversed'], [False, True]):
+    for (f, t), chunk, mapping, perm, extra, bo in itertools.product(wins, chunks, ['identity', 'renamed'],
+                                                                     ['same', 'reversed'], [False, True], ['<', '>']):
         if shard['src'] == 'inline' and (mapping != 'identity' or perm != 'same' or extra):
             continue
-        yield dict(shard, frm=f, to=t, chunk=chunk, mapping=mapping, perm=perm, extra=extra)
+        yield dict(shard, frm=f, to=t, chunk=chunk, mapping=mapping, perm=perm, extra=extra, bo=bo)
 
 
 def _pats(frame, rows):
@@ -74,7 +74,7 @@ def make_spec(c, reference=False):
             arr = S.arr_spec(dt, [hi - frm] if w is None else [hi - frm, w], pat_r)
             ops.append(S.op_add('channel', f'C{i}', name, data=arr))
         else:
-            arr = S.arr_spec(dt, [rows] if w is None else [rows, w], pat)
+            arr = S.arr_spec(dt, [rows] if w is None else [rows, w], pat, bo=c.get('bo', '<'))
             kw = {}
             ds = name
             if c['mapping'] == 'renamed':
